@@ -20,6 +20,17 @@ def parseWorlds : List String → Option (List World)
         mon := { id := nat! mi, nums := ⟨nat! mh, nat! mc, nat! ms⟩ } } :: ws)
   | _ => none
 
+def showRef (r : HtlcRef) : String := s!"{r.chan}:{r.id}"
+def refs (s : String) : List HtlcRef :=
+  if s == "-" then [] else (s.splitOn ",").map (fun x => match x.splitOn ":" with
+    | [c, i] => ⟨nat! c, nat! i⟩
+    | _ => ⟨0, 0⟩)
+def showRefs (l : List HtlcRef) : String := if l.isEmpty then "-" else ",".intercalate (l.map showRef)
+/-- group (chan, id) pairs into a decode map keyed by channel, keeping first-occurrence order -/
+def toDecodeMap (l : List HtlcRef) : List (Nat × List Nat) :=
+  l.foldl (fun m r => if m.any (fun e => e.1 == r.chan) then m.map (fun e => if e.1 == r.chan then (e.1, e.2 ++ [r.id]) else e)
+    else m ++ [(r.chan, [r.id])]) []
+
 def showState (st : St) : String :=
   let m := st.curMgr
   let mon := (st.world st.watch).mon
@@ -30,6 +41,8 @@ def showState (st : St) : String :=
           → `err` | `ok <outcome per channel>`          (Restart.reloadNode: the startup decision)
       init <key> <baseId> <holder> <cp> <secret> | upd <key> <dHolder> <dCp> <dSecret> <blocked> | jump <key> <dHolder> <dCp> <dSecret> | release <key> |
       complete <key> <k> | notify <key> | persist <key> | crash <key> <d>     (Restart.step on the run state of channel <key>)
+      reconcile <queued forwards chan:id,..> <awaiting decode chan:id,..> <outbound HTLC previous hops of closed channels' monitors>
+          → `<forwards kept> | <awaiting decode kept>`      (Restart.reconcile / Restart.dedupDecode)
       state <key> → `<latest> <watch> <in-flight> <chan nums> <nums of the monitor at watch>` -/
 def c10 : Drv where
   σ := List (String × St)
@@ -48,6 +61,8 @@ def c10 : Drv where
         | none => (sts, "err")
         | some rs => (sts, "ok " ++ " ".intercalate (rs.map showOutcome))
       | none => (sts, "bad-op")
+    | ["reconcile", q, dq, mons] =>
+      (sts, s!"{showRefs (reconcile (refs q) (refs mons))} | {showRefs (decodeRefs (dedupDecode (toDecodeMap (refs dq)) (refs mons)))}")
     | ["init", k, b, h, c, s] => ((k, St.init (nat! b) ⟨nat! h, nat! c, nat! s⟩) :: sts.filter (fun p => p.1 != k), "ok")
     | ["upd", k, dh, dc, ds, bl] => upd k (fun st => step st (.update ⟨nat! dh, nat! dc, nat! ds⟩ (bl == "1")))
     | ["jump", k, dh, dc, ds] => upd k (fun st => step st (.jump ⟨nat! dh, nat! dc, nat! ds⟩))
